@@ -21,6 +21,16 @@ HINTS = {"start": 1700000000000, "end": 1700003600000, "step": 15000, "func": "r
 OPS = ["=", "!=", "=~", "!~"]
 
 
+
+def vcheck_lock():
+    """one process-wide lock for the counters of the check object (the three tree-level ties run side by side)"""
+    import threading
+    import builtins
+    if not hasattr(builtins, "_c10_lock"):
+        builtins._c10_lock = threading.Lock()
+    return builtins._c10_lock
+
+
 def go_quote(v):
     """a double-quoted literal both the Pyroscope selector lexer and strconv.Unquote accept: raw UTF-8, \\\\ \\" and \\u00XX escapes"""
     out = ['"']
@@ -84,7 +94,36 @@ TEMPO_SITES = {
 }
 
 
-def tempo_rows(sq_cases):
+def lv_ctx(cluster, tp):
+    return "(%d %d 10000 %s %d %s %s %s %s %s)" % (T_FROM, T_TO, p17.sx_bool(cluster), tp, p17.sx_str("time_series_gin_dist" if cluster else "time_series_gin"),
+                                                 p17.sx_str("samples"), p17.sx_str("time_series"), p17.sx_str("time_series_dist"), p17.sx_str("m15"))
+
+
+def lv_m(n, op, v):
+    return "(%s %s %s)" % (n if n.startswith("h") else p17.sx_str(n), op, v if v.startswith("h") else p17.sx_str(v))
+
+
+LBASE = 3 * 10**7
+LABEL_SITES = {
+    # the label-values / series requests of harness sqlinject as rows of model/ScansPlanners.v (V = the value under test)
+    "labels.values.label": lambda V: "(lv %%d %s %s ())" % (lv_ctx(False, 1), V),
+    "labels.values.label.cluster": lambda V: "(lv %%d %s %s ((%s)))" % (lv_ctx(True, 1), V, lv_m("a", "MEq", "b")),
+    "labels.values.match": lambda V: "(lv %%d %s %s ((%s) (%s)))" % (lv_ctx(False, 1), p17.sx_str("lbl"), lv_m("a", "MEq", V), lv_m("c", "MRe", "d")),
+    "labels.values.match.re": lambda V: "(lv %%d %s %s ((%s)))" % (lv_ctx(False, 1), p17.sx_str("lbl"), lv_m("a", "MRe", V)),
+    "labels.series.match": lambda V: "(lv %%d %s - ((%s)))" % (lv_ctx(False, 1), lv_m("a", "MRe", V)),
+    "labels.promvalues.match": lambda V: "(lv %%d %s %s ((%s %s)))" % (lv_ctx(False, 2), p17.sx_str("lbl"), lv_m("job", "MEq", V), lv_m("__name__", "MEq", "up")),
+    "labels.promvalues.match.re=~": lambda V: "(lv %%d %s %s ((%s %s)))" % (lv_ctx(False, 2), p17.sx_str("lbl"), lv_m("job", "MRe", V), lv_m("__name__", "MEq", "up")),
+    "labels.promvalues.match.re!~": lambda V: "(lv %%d %s %s ((%s %s)))" % (lv_ctx(False, 2), p17.sx_str("lbl"), lv_m("job", "MNre", V), lv_m("__name__", "MEq", "up")),
+}
+
+
+def tempo_rows(sq_cases, SITES=None, BASE=None):
+    SITES = TEMPO_SITES if SITES is None else SITES
+    BASE = TBASE if BASE is None else BASE
+    return _model_rows(sq_cases, SITES, BASE)
+
+
+def _model_rows(sq_cases, TEMPO_SITES, TBASE):
     """[(row id, data row, sqlinject record, value bytes)]: for every Tempo v1 case of harness sqlinject (first statement) and for its
     baseline, the request as a term of model/ScansTempo.v.  The value the request means is the case's `want` (for a shaped case: inside
     the shape, whose bytes are ASCII)."""
@@ -109,7 +148,9 @@ def tempo_rows(sq_cases):
     return out
 
 
-def tempo_judge(ck, tag, trows, res):
+def tempo_judge(ck, tag, trows, res, title="Tempo v1", model="model/ScansTempo.v", real="the real TempoService / SQLIndexQuery", SITES=None,
+                thm="tempo_v1_statements_are_value_independent", key="tempo_v1_"):
+    TEMPO_SITES_ = TEMPO_SITES if SITES is None else SITES
     mism, notok, notsubst, nst, ncmp = [], [], [], 0, 0
     by_site = {}
     for i, row, rec, bi in trows:
@@ -135,25 +176,26 @@ def tempo_judge(ck, tag, trows, res):
         if exp != r[3]:
             notsubst.append(rec)
     show = lambda rec: "%s %r" % (rec.get("site"), bytes.fromhex(rec.get("val", rec.get("marker", "")))[:60])
-    missing = sorted(set(TEMPO_SITES) - set(by_site))
-    ck.obligation("Tempo v1 (%s): flat(pieces(model/ScansTempo.v tree)) = the SQL the real TempoService / SQLIndexQuery issued, byte for byte, on %d statements (hostile requests and baselines; every Tempo v1 position: %s)"
-                  % (tag, nst, sorted(by_site)), not mism and not missing, "; ".join(show(rec) for rec, _ in mism[:3]) + (" no case for %s" % missing if missing else ""))
-    ck.obligation("Tempo v1 (%s): every tree passes pok (tempo_v1_statements_are_value_independent / request_values_keep_statement_structure apply)" % tag,
+    missing = sorted(set(TEMPO_SITES_) - set(by_site))
+    ck.obligation("%s (%s): flat(pieces(%s tree)) = the SQL %s issued, byte for byte, on %d statements (hostile requests and baselines; every position: %s)"
+                  % (title, tag, model, real, nst, sorted(by_site)), not mism and not missing, "; ".join(show(rec) for rec, _ in mism[:3]) + (" no case for %s" % missing if missing else ""))
+    ck.obligation("%s (%s): every tree passes pok (%s / request_values_keep_statement_structure apply)" % (title, tag, thm),
                   not notok, "; ".join(show(rec) for rec in notok[:3]))
-    ck.obligation("Tempo v1 (%s): the segmented text for the hostile request is the marker's with the marker replaced, on %d (request, baseline) pairs" % (tag, ncmp),
+    ck.obligation("%s (%s): the segmented text for the hostile request is the marker's with the marker replaced, on %d (request, baseline) pairs" % (title, tag, ncmp),
                   not notsubst, "; ".join(show(rec) for rec in notsubst[:3]))
     if notok or notsubst:
         rec = (notok or notsubst)[0]
-        ck.violation({"property": "C10", "kind": "Tempo v1: the segmented text of the statement fails pok or is not the marker's text with other values",
+        ck.violation({"property": "C10", "kind": title + ": the segmented text of the statement fails pok or is not the marker's text with other values",
                       "case": {k: v for k, v in rec.items() if not k.startswith("_")}})
     elif mism:
         rec, r = mism[0]
-        ck.violation({"property": "C10", "kind": "flat(pieces) of model/ScansTempo.v differs from the SQL of the real Tempo v1 code",
+        ck.violation({"property": "C10", "kind": "flat(pieces) of %s differs from the SQL of %s" % (model, real),
                       "case": {k: v for k, v in rec.items() if not k.startswith("_")}, "model": r[2].decode("utf8", "replace") if r else None,
-                      "broken": "correspondence model/ScansTempo.v + model/SqlPieces.v vs reader/tempo, reader/service/tempoService.go"}, no_input=True)
-    ck.extra.setdefault("selection_tree_level_tie", {})["tempo_v1_" + tag] = {
+                      "broken": "correspondence %s + model/SqlPieces.v vs the reader code" % model}, no_input=True)
+    ck.extra.setdefault("selection_tree_level_tie", {})[key + tag] = {
         "statements": nst, "pairs_compared_piecewise": ncmp, "per_site_[cases,compared]": by_site}
-    ck.coverage["evaluations"] += nst
+    with vcheck_lock():
+        ck.coverage["evaluations"] += nst
 
 
 def run(ck, sq_cases, tag, values=None):
@@ -227,7 +269,8 @@ def run(ck, sq_cases, tag, values=None):
         if fl is not None:
             lines.append(line(i + FLIP, c, o, fl))
     trows = tempo_rows(sq_cases) if values is None else []
-    lines += [r for _, r, _, _ in trows]
+    lrows = tempo_rows(sq_cases, LABEL_SITES, LBASE) if values is None else []
+    lines += [r for _, r, _, _ in trows] + [r for _, r, _, _ in lrows]
     data = os.path.join(ck.work, "sel_%s_cases.txt" % tag)
     open(data, "w").write("\n".join(lines) + "\n")
     rc, out = ck.ocaml_eval("c10sel_" + tag, "ExtractC10Sel.v", "c10sel", "let data_file = %s\n" % json.dumps(data), "c10sel_driver.ml")
@@ -242,6 +285,9 @@ def run(ck, sq_cases, tag, values=None):
             res[int(p[0])] = (okf == "1", same == "1", bytes.fromhex(flat), [(x[0], bytes.fromhex(x[1:])) for x in pcs.split(",") if x])
     if trows:
         tempo_judge(ck, tag, trows, res)
+    if lrows:
+        tempo_judge(ck, tag, lrows, res, title="Label values / series", model="model/ScansPlanners.v", real="the real QueryLabelsService", SITES=LABEL_SITES,
+                    thm="label_values_statement_is_value_independent / series_statement_is_value_independent", key="label_endpoints_")
     mism, notok, leaked, notsubst = [], [], [], []
     base = {}
     for i, (c, pos, v) in enumerate(reqs):
@@ -312,4 +358,5 @@ def run(ck, sq_cases, tag, values=None):
               "requests_whose_value_is_located_in_a_value_piece": located,
               "statements_matched_under_the_other_answer_of_the_regex_oracle_(Prometheus_refuses_the_matcher,_Go_regexp_accepts_the_anchored_text)": nflip, "requests_on_the_markers_branch_compared_piecewise": nsame,
               "per_position_[statements,value_located,compared_with_marker]": by_pos}
-    ck.coverage["evaluations"] += len(sqls)
+    with vcheck_lock():
+        ck.coverage["evaluations"] += len(sqls)
